@@ -44,8 +44,8 @@ PROPS = {
     "C13": {
         "title": "Expanding ops into changes and slices is faithful",
         "module": "SimilarVerif.Props.C13",
-        "suites": ["changes"],
-        "rule": "changes: every op of the four kinds with offsets/lengths 0..L (quick L=5, thorough L=8) over sequences of distinct values, exhaustive; non-trivial = expands to >= 2 changes; distinct by request hash",
+        "suites": ["changes", "text"],
+        "rule": "changes: every op of the four kinds with offsets/lengths 0..L (quick L=5, thorough L=8) over sequences of distinct values, exhaustive, each iterator also driven through nth/skip/step_by/count/last/fold/size_hint against plain next(); text: iter_all_changes of every text diff of the text suite compared with the per-op expansions and driven the same way; non-trivial = expands to >= 2 changes; distinct by request hash",
         "theorem_status": "full: per-op expansion, slice expansion, whole-diff iteration and apply_to_hook are proved for all ops",
         "level_text": "Lean theorems for all ops: ChangesIter/AllChangesIter state machines drained = the specified lists; slices cover the same items; apply_to_hook reproduces the op. Model tied to the code by exhaustive small-scope differential testing of iter_changes/iter_slices.",
         "level_note": "trusted: Lean kernel; hand-written model of src/iter.rs checked against the code by the correspondence harness only on the explored ops",
